@@ -139,3 +139,36 @@ def pool_for(master_version=33, centre=0, subcentre=0, local_version=0, max_expa
         t = rtables.load_for(0, centre, subcentre, master_version, local_version)
         _POOLS[key] = Pool(t, max_expanded)
     return _POOLS[key]
+
+
+_OVERRIDES = {}
+
+
+def override_sequences(master_version, local):
+    """Sequences of the WMO Table D of `master_version` that reach -- directly or through nested sequences -- an
+    element or sequence which the local table `local` = (centre, sub-centre, version) defines differently; usable
+    with and without the local table (supported by the reference walker under both).  The two table groups share
+    the master version and differ only in the local part."""
+    key = (master_version, local)
+    if key in _OVERRIDES:
+        return _OVERRIDES[key]
+    wmo, loc = pool_for(master_version, max_expanded=300), pool_for(master_version, *local, max_expanded=300)
+    tw, tl = wmo.tables, loc.tables
+    if tl.local_sn is None:
+        _OVERRIDES[key] = []
+        return []
+    changed = set(i for i in tl.B if i in tw.B and tl.B[i][2:6] != tw.B[i][2:6])
+    changed |= set(i for i in tl.D if i in tw.D and tl.D[i][1] != tw.D[i][1])
+
+    def reaches(ids, depth, seen):
+        for i in ids:
+            if i in changed:
+                return True
+            if i // 100000 == 3 and i in tw.D and i not in seen:
+                if reaches(tw.D[i][1], depth + 1, seen | {i}):
+                    return True
+        return False
+    both = set(loc.seqs)
+    out = [sid for sid in wmo.seqs if sid in both and sid not in changed and reaches(tw.D[sid][1], 1, {sid})]
+    _OVERRIDES[key] = out
+    return out
